@@ -8,6 +8,8 @@ import Rmk.Spec.Apply
 import Rmk.Impl.Codec
 import Rmk.Impl.Misc
 import Rmk.Impl.Store
+import Rmk.Spec.Obj
+import Rmk.Impl.Virtual
 import Driver.Sexp
 namespace Driver
 open Rmk
@@ -19,39 +21,6 @@ def join (xs : List String) : String := String.intercalate ";" xs
 def hexO (o : Option (List UInt8)) : String := optStr hexOf o
 def rootO (o : Option Node) : String := optStr (fun n => hexOf (n.root H)) o
 def b01 (b : Bool) : String := if b then "1" else "0"
-
-def runVal (t : Ty) (v : Val) : String :=
-  let wt := t.wf && WT t v
-  let n := Impl.construct H t v
-  let ser := n.bind (Impl.serTree H t)
-  let sbytes := Spec.serialize t v
-  let dec := Impl.deser t sbytes sbytes.length
-  join [
-    kv "wt" (b01 wt),
-    kv "s.root" (hexOf (Spec.htr H t v)),
-    kv "s.bytes" (hexOf sbytes),
-    kv "s.len" (toString sbytes.length),
-    kv "i.root" (rootO n),
-    kv "i.bytes" (hexO (ser.map (·.1))),
-    kv "i.cnt" (optStr toString (ser.map (·.2))),
-    kv "i.read" (optStr valStr (n.bind (Impl.readVal H t))),
-    kv "i.dec" (optStr (fun (p : Val × List UInt8) => valStr p.1 ++ "/" ++ toString p.2.length) dec)]
-
-def runType (t : Ty) : String :=
-  let z := Spec.zeroVal t
-  let d := Impl.defaultNode H t
-  join [
-    kv "wf" (b01 t.wf),
-    kv "fixed" (b01 (Spec.isFixed t)),
-    kv "flen" (toString (Spec.fixedLen t)),
-    kv "min" (toString (Spec.minLen t)),
-    kv "max" (toString (Spec.maxLen t)),
-    kv "depth" (toString (Impl.treeDepth t)),
-    kv "s.zval" (valStr z),
-    kv "s.zroot" (hexOf (Spec.htr H t z)),
-    kv "s.zbytes" (hexOf (Spec.serialize t z)),
-    kv "i.droot" (rootO d),
-    kv "i.dread" (optStr valStr (d.bind (Impl.readVal H t)))]
 
 /-- number of pair nodes of a tree -/
 def pairCount : Node → Nat
@@ -93,6 +62,41 @@ def targetGindex (t : Ty) (n : Node) (op : Impl.Op) : Option Nat :=
   | .bitlist _, .pop => (Impl.listLength H n).bind fun len => toGindex ((len - 1) / 256) d
   | .union _ _, .change _ _ => some 1
   | _, _ => none
+
+def runVal (t : Ty) (v : Val) : String :=
+  let wt := t.wf && WT t v
+  let n := Impl.construct H t v
+  let ser := n.bind (Impl.serTree H t)
+  let sbytes := Spec.serialize t v
+  let dec := Impl.deser t sbytes sbytes.length
+  join [
+    kv "wt" (b01 wt),
+    kv "s.root" (hexOf (Spec.htr H t v)),
+    kv "s.bytes" (hexOf sbytes),
+    kv "s.len" (toString sbytes.length),
+    kv "i.root" (rootO n),
+    kv "i.bytes" (hexO (ser.map (·.1))),
+    kv "i.cnt" (optStr toString (ser.map (·.2))),
+    kv "i.read" (optStr valStr (n.bind (Impl.readVal H t))),
+    kv "i.dec" (optStr (fun (p : Val × List UInt8) => valStr p.1 ++ "/" ++ toString p.2.length) dec),
+    kv "s.obj" (if wt then Obj.toJson (Obj.toObj t v) else "-"),
+    kv "i.fromobj" (if wt then optStr valStr (Obj.fromObj t (Obj.jsonNorm (Obj.toObj t v))) else "-")]
+
+def runType (t : Ty) : String :=
+  let z := Spec.zeroVal t
+  let d := Impl.defaultNode H t
+  join [
+    kv "wf" (b01 t.wf),
+    kv "fixed" (b01 (Spec.isFixed t)),
+    kv "flen" (toString (Spec.fixedLen t)),
+    kv "min" (toString (Spec.minLen t)),
+    kv "max" (toString (Spec.maxLen t)),
+    kv "depth" (toString (Impl.treeDepth t)),
+    kv "s.zval" (valStr z),
+    kv "s.zroot" (hexOf (Spec.htr H t z)),
+    kv "s.zbytes" (hexOf (Spec.serialize t z)),
+    kv "i.droot" (rootO d),
+    kv "i.dread" (optStr valStr (d.bind (Impl.readVal H t)))]
 
 /-- a mutation history: the spec value and the impl tree side by side; a failed op leaves both unchanged -/
 def runHist (t : Ty) (v0 : Val) (ops : List Impl.Op) : String :=
@@ -152,6 +156,22 @@ def runTreeCmd (n : Node) (k : Nat) (cmd : Sexp) : Option String :=
     let ps := probes.map fun q => optStr nodeStr (r.bind fun r => getter r q)
     pure (join [kv (p ++ ".set") (rootO r), kv (p ++ ".probes") (String.intercalate "," ps),
       kv (p ++ ".orig") (hexOf (n.root H))])
+  | .list [.atom "vget", g] => do
+    -- the same tree served lazily by a root-keyed store
+    let g ← atomNat g
+    let src := Virtual.srcOfDict (Virtual.dictOf H n)
+    let r := Virtual.getterM src (.virt (n.root H)) g
+    pure (kv (p ++ ".vget") (optStr (fun m => hexOf (m.root H) ++ (if Virtual.isLeafM src m then ":L" else ":P")) r))
+  | .list (.atom "vset" :: g :: e :: v :: probes) => do
+    let g ← atomNat g
+    let e ← atomNat e
+    let v ← toTree H v
+    let probes ← probes.mapM atomNat
+    let src := Virtual.srcOfDict (Virtual.dictOf H n)
+    let r := Virtual.setterM H src (.virt (n.root H)) g (e != 0) (Virtual.MNode.ofNode v)
+    let ps := probes.map fun q => optStr (fun m => hexOf (Virtual.MNode.root H m)) (r.bind fun r => Virtual.getterM src r q)
+    pure (join [kv (p ++ ".vset") (optStr (fun m => hexOf (Virtual.MNode.root H m)) r),
+      kv (p ++ ".vprobes") (String.intercalate "," ps)])
   | .list [.atom "summ", g] => do
     let g ← atomNat g
     let r := summarizeInto H n g
@@ -219,6 +239,24 @@ def runStore (t : Ty) (v : Val) (ops : List (Impl.SOp ⊕ Nat)) : String :=
       match ops with
       | [] => acc.reverse
       | op :: rest =>
+        let bound : String := match op with
+          | .inl (.mutate r o) =>
+            -- path from the chain root down to the written node: the tree depth of every enclosing view
+            let rec up (fuel : Nat) (q : Nat) (acc : Nat) : Nat :=
+              match fuel with
+              | 0 => acc
+              | f + 1 =>
+                match s[q]? with
+                | some vo => (match vo.hook with
+                  | some (par, _) => (match s[par]? with
+                    | some po => up f par (acc + Impl.treeDepth po.ty)
+                    | none => acc)
+                  | none => acc)
+                | none => acc
+            (match s[r]? with
+              | some vo => toString (up (r + 1) r (costBound vo.ty o))
+              | none => "-")
+          | _ => "-"
         let (s', snaps', status) : Impl.Store × List (Ty × Node) × String :=
           match op with
           | .inr r =>
@@ -232,6 +270,7 @@ def runStore (t : Ty) (v : Val) (ops : List (Impl.SOp ⊕ Nat)) : String :=
         let p := toString k
         let out := [
           kv (p ++ ".i") status,
+          kv (p ++ ".bound") bound,
           kv (p ++ ".views") (String.intercalate "," (s'.map viewStr)),
           kv (p ++ ".snaps") (String.intercalate "," (snaps'.map fun (q : Ty × Node) =>
             hexOf (q.2.root H) ++ ":" ++ hexO ((Impl.serTree H q.1 q.2).map (·.1))))]
